@@ -22,11 +22,16 @@ static void in_pair32(u32* a, u32* b, int n){ for (int i = 0; i < n; i++){ a[i] 
 static void in_pairf(float* a, float* b, int n){ for (int i = 0; i < n; i++){ a[i] = in_f32(); float t = in_f32(); u64 s = in_u64(0, 2); b[i] = s == 1 ? a[i] : s == 2 ? a[i] + t : t; } }
 static int eq64(const u64* a, u64 na, const u64* b, u64 nb){ if (na != nb) return 0; int e = 1; for (u64 i = 0; i < 4; i++) if (i < na && a[i] != b[i]) e = 0; return e; }
 static int closef(float a, float b, float eps){ float d = a - b; float m = d < 0 ? -d : d; return m < eps; }
+static int closef_default(float a, float b){ float d = a - b; float m = d < 0 ? -d : d; return (double)m < 1e-6; }   /* isclose's default eps */
 static int closed(double a, double b, double eps){ double d = a - b; double m = d < 0 ? -d : d; return m < eps; }
 static u64 prod(const u64* s, u64 n){ u64 p = 1; for (u64 i = 0; i < 3; i++) if (i < n) p *= s[i]; return p; }
 static int same_shape(const u64* s, u64 n, const u64* t, u64 m){ if (n != m) return 0; int e = 1; for (u64 i = 0; i < 3; i++) if (i < n && s[i] != t[i]) e = 0; return e; }
 #define BOTH(expr0, expr1, expect, what) do { int r0_ = (int)(expr0); int r1_ = (int)(expr1); OBS(r0_); OBS(r1_); \
   ASSERT(r0_ == (expect), what ": f(a,b) == reference"); ASSERT(r1_ == (expect), what ": f(b,a) == reference (symmetry)"); } while (0)
+/* floating point: each call order is compared with the reference evaluated in the same operand order; that the reference itself is symmetric
+ * (IEEE-754: fl(a-b) == -fl(b-a)) is shown once by the solver in h_close_lemma */
+#define BOTHX(expr0, expr1, e0, e1, what) do { int r0_ = (int)(expr0); int r1_ = (int)(expr1); OBS(r0_); OBS(r1_); \
+  ASSERT(r0_ == (e0), what ": f(a,b) == reference(a,b)"); ASSERT(r1_ == (e1), what ": f(b,a) == reference(b,a)"); } while (0)
 /* asserts-on build: a length / dimension / shape mismatch stops in nmtools' assert() instead of returning false (pending finding) */
 #ifdef KF_C18_DBG_MISMATCH_ABORTS
 #define DBG_EXCLUDE(mismatch) ASSUME(!(mismatch))
@@ -79,11 +84,15 @@ void h_idx_arr_arr(void){
   BOTH(KS(CAT4(k_eq_arr, N, _arr, N))(a, b, 0), KS(CAT4(k_eq_arr, N, _arr, N))(a, b, 1), eq64(a, N, b, N), "array/array");
   REACHED();
 }
-void h_idx_svi_sv(void){   /* int elements against size_t elements: equal iff mathematically equal after nmtools' index promotion (int -> size_t: sign-extended) */
+void h_idx_svi_sv(void){   /* int elements against size_t elements */
   u32 a[4]; u64 b[4]; u64 na = in_u64(0, 4), nb = in_u64(0, 4);
   for (int i = 0; i < 4; i++){ a[i] = in_any32(); u64 t = in_bits(); u64 s = in_u64(0, 1); b[i] = s ? (u64)(i64)(i32)a[i] : t; }
   DBG_EXCLUDE(na != nb);
-  int e = na == nb; for (u64 i = 0; i < 4; i++) if (i < na && (u64)(i64)(i32)a[i] != b[i]) e = 0;
+#ifdef KF_C18_EQ_MIXED_SIGN_TRUNCATES
+  for (u64 i = 0; i < 4; i++) ASSUME(!(i < na && i < nb && b[i] > 0x7fffffffULL));   /* the size_t side is cast to int before comparing */
+#endif
+  /* equal iff mathematically equal: a negative int never equals a size_t */
+  int e = na == nb; for (u64 i = 0; i < 4; i++) if (i < na && !((i32)a[i] >= 0 && (u64)(i32)a[i] == b[i])) e = 0;
   BOTH(KS(k_eq_svi_sv)(a, na, b, nb, 0), KS(k_eq_svi_sv)(a, na, b, nb, 1), e, "static_vector<int>/static_vector<size_t>");
   REACHED();
 }
@@ -97,19 +106,45 @@ void h_num(void){
   BOTH(KS(k_eq_num_i_u)(x, y, 0), KS(k_eq_num_i_u)(x, y, 1), x == y, "int/unsigned");
   REACHED();
 }
-void h_close_num(void){
+void h_close_f32(void){
   float a, b; in_pairf(&a, &b, 1); float eps = in_f32();
-  BOTH(KS(k_close_f32)(a, b, eps, 0), KS(k_close_f32)(a, b, eps, 1), closef(a, b, eps), "float/float");
-  double c = in_f64(), d = in_f64(), e2 = in_f64();
-  BOTH(KS(k_close_f64)(c, d, e2, 0), KS(k_close_f64)(c, d, e2, 1), closed(c, d, e2), "double/double");
-  BOTH(KS(k_close_f32_f64)(a, d, e2, 0), KS(k_close_f32_f64)(a, d, e2, 1), closed((double)a, d, e2), "float/double");
+  BOTHX(KS(k_close_f32)(a, b, eps, 0), KS(k_close_f32)(a, b, eps, 1), closef(a, b, eps), closef(b, a, eps), "float/float");
+  REACHED();
+}
+void h_close_lemma(void){    /* the reference is symmetric: a fact about IEEE-754 subtraction, decided by the solver (no nmtools code involved) */
+#if LEMMA == 64
+  double a = in_f64(), b = in_f64(), eps = in_f64();
+  ASSERT(closed(a, b, eps) == closed(b, a, eps), "reference closeness is symmetric (double)");
+#else
+  float a = in_f32(), b = in_f32(), eps = in_f32();
+  ASSERT(closef(a, b, eps) == closef(b, a, eps), "reference closeness is symmetric (float)");
+#endif
+  REACHED();
+}
+/* double operands: nmtools rounds |a-b| to float before comparing with eps (constexpr_fabs<Float=float>) */
+static int closed_as_float(double a, double b, double eps){ double d = a - b; double m = d < 0 ? -d : d; return (double)(float)m < eps; }
+void h_close_f64(void){
+  double c = in_f64(), t = in_f64(), e2 = in_f64(); u64 s = in_u64(0, 2); double d = s == 1 ? c : s == 2 ? c + t : t;
+#ifdef KF_C18_CLOSE_DOUBLE_ROUNDS_TO_FLOAT
+  ASSUME(closed_as_float(c, d, e2) == closed(c, d, e2) && closed_as_float(d, c, e2) == closed(d, c, e2));
+#endif
+  BOTHX(KS(k_close_f64)(c, d, e2, 0), KS(k_close_f64)(c, d, e2, 1), closed(c, d, e2), closed(d, c, e2), "double/double");
+  REACHED();
+}
+void h_close_f32_f64(void){
+  float a = in_f32(); double t = in_f64(), e2 = in_f64(); u64 s = in_u64(0, 2); double d = s == 1 ? (double)a : s == 2 ? (double)a + t : t;
+#ifdef KF_C18_CLOSE_DOUBLE_ROUNDS_TO_FLOAT
+  ASSUME(closed_as_float((double)a, d, e2) == closed((double)a, d, e2) && closed_as_float(d, (double)a, e2) == closed(d, (double)a, e2));
+#endif
+  BOTHX(KS(k_close_f32_f64)(a, d, e2, 0), KS(k_close_f32_f64)(a, d, e2, 1), closed((double)a, d, e2), closed(d, (double)a, e2), "float/double");
   REACHED();
 }
 /* integer operands: |a-b| < eps over the integers (exact in double: |a-b| <= 2^32) */
 void h_close_uint(void){
   u32 a = in_any32(), t = in_any32(); u64 s = in_u64(0, 2); u32 b = s == 1 ? a : s == 2 ? a + (t & 3) : t; double eps = in_f64();
 #ifdef KF_C18_CLOSE_UNSIGNED_WRAPS
-  ASSUME(!(a < b || a - b > (1u << 24)));   /* unsigned difference wraps when a < b; the difference is rounded to float when it exceeds 2^24 */
+  { double df = a > b ? (double)(a - b) : (double)(b - a);
+    ASSUME(!((a != b && df < eps) || df > 16777216.0)); }   /* the unsigned difference wraps in one of the two call orders; it is rounded to float beyond 2^24 */
 #endif
   double diff = a > b ? (double)(a - b) : (double)(b - a);
   BOTH(KS(k_close_u32)(a, b, eps, 0), KS(k_close_u32)(a, b, eps, 1), diff < eps, "unsigned/unsigned");
@@ -119,7 +154,7 @@ void h_close_int(void){
   u32 a = in_any32(), t = in_any32(); u64 s = in_u64(0, 2); u32 b = s == 1 ? a : s == 2 ? a + (t & 3) : t; double eps = in_f64();
   i64 d = (i64)(i32)a - (i64)(i32)b; if (d < 0) d = -d;
 #ifdef KF_C18_CLOSE_INT_OVERFLOW
-  ASSUME(!(d > 0x7fffffffLL || d > (1 << 24)));   /* int difference overflows (UB); or is rounded to float beyond 2^24 */
+  ASSUME(!(d > (1 << 24)));   /* the int difference is rounded to float beyond 2^24 (and overflows int beyond 2^31-1: UB) */
 #endif
   BOTH(KS(k_close_i32)(a, b, eps, 0), KS(k_close_i32)(a, b, eps, 1), (double)d < eps, "int/int");
   REACHED();
@@ -135,14 +170,11 @@ void h_nd_h2_h2(void){
   BOTH(KS(k_eq_h2_h2)(sa, da, sb, db, 0), KS(k_eq_h2_h2)(sa, da, sb, db, 1), e, "hybrid 2-d / hybrid 2-d (same shape, same size other shape, other size)");
   REACHED();
 }
-void h_nd_dimdiff(void){   /* fixed-dim operands of different dim (1 vs 2, 2 vs 3): never equal */
+void h_nd_dimdiff(void){   /* fixed-dim operands of different dim (2 vs 1, 2 vs 3): never equal, in either order */
   u64 sa[3], sb[3]; u32 da[CAP], db[CAP]; in_shape(sa, 3); in_shape(sb, 3); in_pair32(da, db, CAP);
   ASSUME(prod(sb, 3) <= CAP);
-  DBG_EXCLUDE(1);
-  int r = KS(k_eq_h1_h2)(sa, da, sb, db); OBS(r);
-  ASSERT(r == 0, "1-d vs 2-d: different dimension is not equal");
-  r = KS(k_eq_h2_h3)(sa, da, sb, db); OBS(r);
-  ASSERT(r == 0, "2-d vs 3-d: different dimension is not equal");
+  BOTH(KS(k_eq_h2_h1)(sa, da, sb, db, 0), KS(k_eq_h2_h1)(sa, da, sb, db, 1), 0, "2-d vs 1-d: different dimension is not equal");
+  BOTH(KS(k_eq_h2_h3)(sa, da, sb, db, 0), KS(k_eq_h2_h3)(sa, da, sb, db, 1), 0, "2-d vs 3-d: different dimension is not equal");
   REACHED();
 }
 void h_nd_f23_h2(void){
@@ -151,25 +183,34 @@ void h_nd_f23_h2(void){
   BOTH(KS(k_eq_f23_h2)(da, sb, db, 0), KS(k_eq_f23_h2)(da, sb, db, 1), e, "fixed (2,3) / hybrid 2-d");
   REACHED();
 }
-void h_nd_b_b(void){    /* bounded buffer, bounded run-time dim 1..3 on both sides */
-  u64 sa[3], sb[3]; u32 da[CAP], db[CAP]; u64 na = in_u64(1, 3), nb = in_u64(1, 3); in_shape(sa, 3); in_shape(sb, 3); in_pair32(da, db, CAP);
-  ASSUME(prod(sa, na) <= CAP && prod(sb, nb) <= CAP);
+#ifndef NA
+#define NA 2
+#endif
+#ifndef NB
+#define NB 2
+#endif
+#ifndef CAPB
+#define CAPB CAP
+#endif
+void h_nd_b_b(void){    /* bounded buffer, bounded run-time dim on both sides; the dims NA, NB are per-query constants 1..3 */
+  u64 sa[3], sb[3]; u32 da[CAP], db[CAP]; u64 na = NA, nb = NB; in_shape(sa, 3); in_shape(sb, 3); in_pair32(da, db, CAP);
+  ASSUME(prod(sa, na) <= CAPB && prod(sb, nb) <= CAPB);
   DBG_EXCLUDE(na != nb);
   int e = same_shape(sa, na, sb, nb) && eq_data(da, db, prod(sa, na));
   BOTH(KS(k_eq_b_b)(sa, na, da, sb, nb, db, 0), KS(k_eq_b_b)(sa, na, da, sb, nb, db, 1), e, "bounded-dim / bounded-dim");
   REACHED();
 }
 void h_nd_d_d(void){    /* std::vector buffer and shape on both sides */
-  u64 sa[3], sb[3]; u32 da[CAP], db[CAP]; u64 na = in_u64(1, 3), nb = in_u64(1, 3); in_shape(sa, 3); in_shape(sb, 3); in_pair32(da, db, CAP);
-  ASSUME(prod(sa, na) <= CAP && prod(sb, nb) <= CAP);
+  u64 sa[3], sb[3]; u32 da[CAP], db[CAP]; u64 na = NA, nb = NB; in_shape(sa, 3); in_shape(sb, 3); in_pair32(da, db, CAP);
+  ASSUME(prod(sa, na) <= CAPB && prod(sb, nb) <= CAPB);
   DBG_EXCLUDE(na != nb);
   int e = same_shape(sa, na, sb, nb) && eq_data(da, db, prod(sa, na));
   BOTH(KS(k_eq_d_d)(sa, na, da, sb, nb, db, 0), KS(k_eq_d_d)(sa, na, da, sb, nb, db, 1), e, "dynamic / dynamic");
   REACHED();
 }
 void h_nd_d_h2(void){
-  u64 sa[3], sb[2]; u32 da[CAP], db[CAP]; u64 na = in_u64(1, 3); in_shape(sa, 3); in_shape(sb, 2); in_pair32(da, db, CAP);
-  ASSUME(prod(sa, na) <= CAP);
+  u64 sa[3], sb[2]; u32 da[CAP], db[CAP]; u64 na = NA; in_shape(sa, 3); in_shape(sb, 2); in_pair32(da, db, CAP);
+  ASSUME(prod(sa, na) <= CAPB);
   DBG_EXCLUDE(na != 2);
   int e = same_shape(sa, na, sb, 2) && eq_data(da, db, prod(sa, na));
   BOTH(KS(k_eq_d_h2)(sa, na, da, sb, db, 0), KS(k_eq_d_h2)(sa, na, da, sb, db, 1), e, "dynamic / hybrid 2-d");
@@ -181,17 +222,15 @@ void h_close_h2_h2(void){
   u64 sa[2], sb[2]; float da[CAP], db[CAP]; in_shape(sa, 2); in_shape(sb, 2); in_pairf(da, db, CAP); float eps = in_f32();
   int ss = same_shape(sa, 2, sb, 2);
   DBG_EXCLUDE(!ss);
-  int e = ss && close_data(da, db, prod(sa, 2), eps);
-  BOTH(KS(k_close_h2_h2)(sa, da, sb, db, eps, 0), KS(k_close_h2_h2)(sa, da, sb, db, eps, 1), e, "isclose hybrid 2-d / hybrid 2-d");
+  BOTHX(KS(k_close_h2_h2)(sa, da, sb, db, eps, 0), KS(k_close_h2_h2)(sa, da, sb, db, eps, 1), ss && close_data(da, db, prod(sa, 2), eps), ss && close_data(db, da, prod(sa, 2), eps), "isclose hybrid 2-d / hybrid 2-d");
   REACHED();
 }
 void h_close_b_b(void){
-  u64 sa[3], sb[3]; float da[CAP], db[CAP]; u64 na = in_u64(1, 3), nb = in_u64(1, 3); in_shape(sa, 3); in_shape(sb, 3); in_pairf(da, db, CAP); float eps = in_f32();
-  ASSUME(prod(sa, na) <= CAP && prod(sb, nb) <= CAP);
+  u64 sa[3], sb[3]; float da[CAP], db[CAP]; u64 na = NA, nb = NB; in_shape(sa, 3); in_shape(sb, 3); in_pairf(da, db, CAP); float eps = in_f32();
+  ASSUME(prod(sa, na) <= CAPB && prod(sb, nb) <= CAPB);
   int ss = same_shape(sa, na, sb, nb);
   DBG_EXCLUDE(!ss);
-  int e = ss && close_data(da, db, prod(sa, na), eps);
-  BOTH(KS(k_close_b_b)(sa, na, da, sb, nb, db, eps, 0), KS(k_close_b_b)(sa, na, da, sb, nb, db, eps, 1), e, "isclose bounded-dim / bounded-dim");
+  BOTHX(KS(k_close_b_b)(sa, na, da, sb, nb, db, eps, 0), KS(k_close_b_b)(sa, na, da, sb, nb, db, eps, 1), ss && close_data(da, db, prod(sa, na), eps), ss && close_data(db, da, prod(sa, na), eps), "isclose bounded-dim / bounded-dim");
   REACHED();
 }
 
@@ -215,9 +254,9 @@ void h_maybe_value(void){
 }
 void h_close_maybe(void){
   float a, b; in_pairf(&a, &b, 1); float eps = in_f32(); u32 ha = in_u32(0, 1), hb = in_u32(0, 1);
-  int e = (!ha && !hb) ? 1 : (ha != hb) ? 0 : closef(a, b, eps);
-  BOTH(KS(k_close_maybe_maybe)(ha, a, hb, b, eps, 0), KS(k_close_maybe_maybe)(ha, a, hb, b, eps, 1), e, "isclose maybe/maybe");
-  BOTH(KS(k_close_maybe_value)(ha, a, b, eps, 0), KS(k_close_maybe_value)(ha, a, b, eps, 1), ha ? closef(a, b, eps) : 0, "isclose maybe/value");
+  int e0 = (!ha && !hb) ? 1 : (ha != hb) ? 0 : closef(a, b, eps), e1 = (!ha && !hb) ? 1 : (ha != hb) ? 0 : closef(b, a, eps);
+  BOTHX(KS(k_close_maybe_maybe)(ha, a, hb, b, eps, 0), KS(k_close_maybe_maybe)(ha, a, hb, b, eps, 1), e0, e1, "isclose maybe/maybe");
+  BOTHX(KS(k_close_maybe_value)(ha, a, b, eps, 0), KS(k_close_maybe_value)(ha, a, b, eps, 1), ha ? closef(a, b, eps) : 0, ha ? closef(b, a, eps) : 0, "isclose maybe/value");
   REACHED();
 }
 
@@ -238,16 +277,16 @@ void h_either_value(void){
 }
 void h_close_either(void){
   u64 s[1]; float da[CAP], db[CAP], xa, xb; s[0] = in_u64(0, MAXE); in_pairf(da, db, MAXE); in_pairf(&xa, &xb, 1); float eps = in_f32(); u32 ra = in_u32(0, 1), rb = in_u32(0, 1);
-  int e = (ra != rb) ? 0 : ra ? close_data(da, db, s[0], eps) : closef(xa, xb, eps);
-  BOTH(KS(k_close_either_either)(ra, xa, rb, xb, s, da, db, eps, 0), KS(k_close_either_either)(ra, xa, rb, xb, s, da, db, eps, 1), e, "isclose either/either");
+  int e0 = (ra != rb) ? 0 : ra ? close_data(da, db, s[0], eps) : closef(xa, xb, eps), e1 = (ra != rb) ? 0 : ra ? close_data(db, da, s[0], eps) : closef(xb, xa, eps);
+  BOTHX(KS(k_close_either_either)(ra, xa, rb, xb, s, da, db, eps, 0), KS(k_close_either_either)(ra, xa, rb, xb, s, da, db, eps, 1), e0, e1, "isclose either/either");
   REACHED();
 }
 void h_close_either_value(void){
   u64 s[1]; float da[CAP], xa, v; s[0] = in_u64(0, MAXE); for (int i = 0; i < MAXE; i++) da[i] = in_f32(); in_pairf(&xa, &v, 1); float eps = in_f32(); u32 ra = in_u32(0, 1);
 #ifdef KF_C18_CLOSE_EITHER_DROPS_EPS
-  ASSUME(!(!ra && closef(xa, v, eps) != closed((double)xa, (double)v, 1e-6)));   /* the one-sided either branch calls isclose without eps (default 1e-6 is used) */
+  ASSUME(!(!ra && (closef(xa, v, eps) != closef_default(xa, v) || closef(v, xa, eps) != closef_default(v, xa))));   /* the one-sided either branch calls isclose without eps (default 1e-6 is used) */
 #endif
-  BOTH(KS(k_close_either_num)(ra, xa, s, da, v, eps, 0), KS(k_close_either_num)(ra, xa, s, da, v, eps, 1), ra ? 0 : closef(xa, v, eps), "isclose either/scalar honours eps");
+  BOTHX(KS(k_close_either_num)(ra, xa, s, da, v, eps, 0), KS(k_close_either_num)(ra, xa, s, da, v, eps, 1), ra ? 0 : closef(xa, v, eps), ra ? 0 : closef(v, xa, eps), "isclose either/scalar honours eps");
   REACHED();
 }
 
@@ -256,8 +295,11 @@ void h_tuple(void){
   u64 a[4], b[4]; in_pair64(a, b, 3);
   BOTH(KS(k_eq_tuple3)(a, b, 0), KS(k_eq_tuple3)(a, b, 1), eq64(a, 3, b, 3), "tuple/tuple");
   BOTH(KS(k_eq_tuple_arr3)(a, b, 0), KS(k_eq_tuple_arr3)(a, b, 1), eq64(a, 3, b, 3), "tuple/array");
+  REACHED();
+}
+void h_close_tuple(void){
   float f[2], g[2]; in_pairf(f, g, 2); float eps = in_f32();
-  BOTH(KS(k_close_tuple2)(f[0], f[1], g[0], g[1], eps, 0), KS(k_close_tuple2)(f[0], f[1], g[0], g[1], eps, 1), closef(f[0], g[0], eps) && closef(f[1], g[1], eps), "isclose tuple/tuple");
+  BOTHX(KS(k_close_tuple2)(f[0], f[1], g[0], g[1], eps, 0), KS(k_close_tuple2)(f[0], f[1], g[0], g[1], eps, 1), closef(f[0], g[0], eps) && closef(f[1], g[1], eps), closef(g[0], f[0], eps) && closef(g[1], f[1], eps), "isclose tuple/tuple");
   REACHED();
 }
 void h_tuple_mixed(void){   /* (scalar, index array, maybe<index array>) member by member */
